@@ -11,11 +11,13 @@ use std::collections::BTreeMap;
 use std::sync::atomic::{AtomicU64, Ordering};
 
 const CENTRE: i64 = 500;
-/// path levels are expressed in half ticks so that odd spreads (half-tick mid-prices) occur
-const CENTRE_H: i64 = 2 * CENTRE;
 
 #[derive(Clone, Debug)]
 struct Params {
+    /// mid-price level the paths start from, in ticks
+    centre: i64,
+    /// paths with moves of millions of ticks instead of one or two
+    big_moves: bool,
     multi: bool,
     tick: u32,
     n: u16,
@@ -201,7 +203,7 @@ fn mirror(p: &Params, f: &Flow) -> Flow {
                     MAXP
                 }
             } else {
-                (2 * CENTRE as u32 * p.tick) - *price
+                (2 * p.centre as u32 * p.tick) - *price
             };
             (*t, *market, !*bid, np, *vol)
         })
@@ -214,21 +216,27 @@ pub fn c17(tier: &str) -> i32 {
     let mut out = Outcome::new("C17", tier, "model_checking");
     let t = crate::bookprops::thorough(tier);
     let max_len = if t { 5 } else { 3 };
-    // all paths of moves in {-2..2}; levels[0] = CENTRE
-    let mut paths: Vec<Vec<i64>> = vec![vec![CENTRE_H]];
-    let mut all_paths: Vec<Vec<i64>> = Vec::new();
-    for _ in 0..max_len {
-        let mut next = Vec::new();
-        for pth in &paths {
-            for mv in [-4i64, -2, -1, 0, 1, 2, 4] {
-                let mut q = pth.clone();
-                q.push(pth[pth.len() - 1] + mv);
-                next.push(q);
+    // all paths of moves in {-2..2} ticks (in half ticks), as offsets from the starting level; and a
+    // second family with moves of millions of ticks
+    let gen = |moves: &[i64], max_len: usize| -> Vec<Vec<i64>> {
+        let mut paths: Vec<Vec<i64>> = vec![vec![0]];
+        let mut all: Vec<Vec<i64>> = Vec::new();
+        for _ in 0..max_len {
+            let mut next = Vec::new();
+            for pth in &paths {
+                for mv in moves {
+                    let mut q = pth.clone();
+                    q.push(pth[pth.len() - 1] + mv);
+                    next.push(q);
+                }
             }
+            all.extend(next.iter().cloned());
+            paths = next;
         }
-        all_paths.extend(next.iter().cloned());
-        paths = next;
-    }
+        all
+    };
+    let small_paths = gen(&[-4, -2, -1, 0, 1, 2, 4], max_len);
+    let big_paths = gen(&[-6_000_000, -2_400_000, 0, 2_400_000, 6_000_000], if t { 4 } else { 3 });
     let mut params: Vec<Params> = Vec::new();
     for multi in [false, true] {
         for tick in [1u32, 2] {
@@ -239,8 +247,20 @@ pub fn c17(tier: &str) -> i32 {
                             if !t && (multi && tick == 2 && n == 2) {
                                 continue;
                             }
-                            params.push(Params { multi, tick, n, decay, scale, demand, ratio });
+                            params.push(Params { centre: CENTRE, big_moves: false, multi, tick, n, decay, scale, demand, ratio });
                         }
+                    }
+                }
+            }
+        }
+    }
+    // mid-prices beyond 2^24 (where a 32-bit float no longer holds a half tick) with small and with huge moves
+    for multi in [false, true] {
+        for n in 1..=2u16 {
+            for decay in [1.0, 0.5] {
+                for (demand, ratio) in [(100.0, 0.0), (100.0, 1.0)] {
+                    for big_moves in [false, true] {
+                        params.push(Params { centre: 20_000_011, big_moves, multi, tick: 1, n, decay, scale: 0.5, demand, ratio });
                     }
                 }
             }
@@ -252,7 +272,12 @@ pub fn c17(tier: &str) -> i32 {
     let sells = AtomicU64::new(0);
     let fails: std::sync::Mutex<BTreeMap<String, (String, serde_json::Value)>> = Default::default();
     let next = AtomicU64::new(0);
-    let jobs: Vec<(usize, usize)> = (0..params.len()).flat_map(|pi| (0..all_paths.len()).map(move |qi| (pi, qi))).collect();
+    let jobs: Vec<(usize, usize)> = (0..params.len())
+        .flat_map(|pi| {
+            let np = if params[pi].big_moves { big_paths.len() } else if params[pi].centre != CENTRE { small_paths.len().min(400) } else { small_paths.len() };
+            (0..np).map(move |qi| (pi, qi))
+        })
+        .collect();
     std::thread::scope(|sc| {
         for _ in 0..util::n_threads() {
             sc.spawn(|| loop {
@@ -262,8 +287,10 @@ pub fn c17(tier: &str) -> i32 {
                 }
                 let (pi, qi) = jobs[i];
                 let p = &params[pi];
-                let levels = &all_paths[qi];
-                let mirrored: Vec<i64> = levels.iter().map(|m| 2 * CENTRE_H - m).collect();
+                let offs = if p.big_moves { &big_paths[qi] } else { &small_paths[qi] };
+                let levels: Vec<i64> = offs.iter().map(|o| 2 * p.centre + o).collect();
+                let levels = &levels;
+                let mirrored: Vec<i64> = offs.iter().map(|o| 2 * p.centre - o).collect();
                 // scripts for the last round
                 let mut scripts: Vec<(Vec<Ans>, Option<Vec<f64>>)> = vec![
                     (vec![], None),
@@ -322,7 +349,7 @@ pub fn c17(tier: &str) -> i32 {
                             }
                         }
                         // mirror differential (only meaningful while both mid paths really are mirrored)
-                        let mirrored_ok = (0..=r).all(|j| (a.mids[j] + b.mids[j] - 2.0 * (CENTRE as f64) * p.tick as f64).abs() < 1e-9);
+                        let mirrored_ok = (0..=r).all(|j| (a.mids[j] + b.mids[j] - 2.0 * (p.centre as f64) * p.tick as f64).abs() < 1e-9);
                         if mirrored_ok && mirror(p, &a.flows[r]) != b.flows[r] {
                             fails.lock().unwrap().entry("momentum/mirrored-path-not-mirrored-flow".to_string()).or_insert((
                                 format!(
@@ -341,17 +368,17 @@ pub fn c17(tier: &str) -> i32 {
     out.set("states", json!(e));
     out.set("transitions", json!(rounds.load(Ordering::Relaxed)));
     out.set("traces_validated_against_impl", json!(e));
-    out.set("paths", json!(all_paths.len()));
+    out.set("paths", json!(small_paths.len() + big_paths.len()));
     out.set("parameter_sets", json!(params.len()));
     out.set("buy_orders_observed", json!(buys.load(Ordering::Relaxed)));
     out.set("sell_orders_observed", json!(sells.load(Ordering::Relaxed)));
     out.set(
         "bounds",
-        json!({"moves_per_round_in_ticks": [-2, -1, -0.5, 0, 0.5, 1, 2], "max_path_length": max_len, "decay": [1.0, 0.5], "scale": [0.5, 10.0],
+        json!({"moves_per_round_in_ticks": [-2, -1, -0.5, 0, 0.5, 1, 2], "starting_levels_in_ticks": [500, 20_000_011], "huge_moves_in_ticks": [-3_000_000, -1_200_000, 0, 1_200_000, 3_000_000], "max_path_length": max_len, "decay": [1.0, 0.5], "scale": [0.5, 10.0],
                "demand": ["100 (saturated)", "0.6*n (unsaturated)"], "order_ratio": [0, 0.5, 1], "traders": "1..3", "ticks": [1, 2], "multi_asset": [false, true],
                "last_round_answers": "default stream, all-zero, all-ones, mid; with ratio 0 every combination of {0, p-1e-9, p+1e-9, 1-1e-12} per trader"}),
     );
-    out.push("samples", json!({"mid_levels_in_half_ticks": all_paths[7], "params": format!("{:?}", params[3])}));
+    out.push("samples", json!({"mid_level_offsets_in_half_ticks": small_paths[7], "params": format!("{:?}", params[3])}));
     if buys.load(Ordering::Relaxed) == 0 {
         out.machinery_errors.push("vacuous: no buy order observed".into());
     }
